@@ -57,3 +57,92 @@ pub fn decode_s_for_exponent(ctx: &Ctx, sy: &Sylow, e: &B, rng: &mut impl RngCor
     }
     out
 }
+
+/// "Near-valid rejects" of the decoder: non-negative canonical s whose discriminant u2*u1^2 is a
+/// NON-square (so the specification rejects) although the candidate point the decoder would compute
+/// from the square root of zeta/(u2*u1^2) — what sqrt_ratio_zeta returns together with its `false`
+/// flag — satisfies the curve equation. A decoder that validates the coordinates instead of honouring
+/// the flag accepts exactly these strings. With v^2 = zeta/(u2 u1^2): x = 2 s zeta/u1,
+/// y^2 = (1+t)^2 zeta/u2 (t = s^2), and -x^2 + y^2 = 1 + d x^2 y^2 becomes the quartic
+///   -4 zeta^2 t u2 + zeta (1+t)^2 u1^2 - u1^2 u2 - 4 d zeta^3 t (1+t)^2 = 0.
+pub fn decode_nonsquare_oncurve(ctx: &Ctx, rng: &mut impl RngCore) -> Vec<B> {
+    let c = &ctx.c;
+    let f = &c.f;
+    let z = &c.zeta;
+    let u1: Poly = vec![b(1), f.neg(&b(1))];
+    let u1sq = pmul(f, &u1, &u1);
+    let fourd_t: Poly = vec![b(0), f.mul(&b(4), &c.d)];
+    let u2 = psub(f, &u1sq, &fourd_t);
+    let opt: Poly = vec![b(1), b(1)];
+    let optsq = pmul(f, &opt, &opt);
+    let t: Poly = vec![b(0), b(1)];
+    let z2 = f.sq(z);
+    let z3 = f.mul(&z2, z);
+    let term1 = crate::poly::pscale(f, &pmul(f, &t, &u2), &f.neg(&f.mul(&b(4), &z2)));
+    let term2 = crate::poly::pscale(f, &pmul(f, &optsq, &u1sq), z);
+    let term3 = pmul(f, &u1sq, &u2);
+    let term4 = crate::poly::pscale(f, &pmul(f, &t, &optsq), &f.mul(&f.mul(&b(4), &c.d), &z3));
+    let poly = psub(f, &psub(f, &crate::poly::padd(f, &term1, &term2), &term3), &term4);
+    let mut out = Vec::new();
+    for tv in roots(f, &poly, rng) {
+        if let Some(s) = f.sqrt(&tv) {
+            let s = f.abs(&s);
+            // keep only those the specification rejects for a non-square discriminant
+            if matches!(c.decode_spec_fe(&s), Err(crate::model::SpecErr::NotOnCurve)) {
+                out.push(s);
+            }
+        }
+    }
+    out.sort();
+    out.dedup();
+    out
+}
+
+/// All Elligator preimages of a group element: every r0 with elligatorSpec(r0) decaf-equal to `target`
+/// (the map is up to 8-to-1). For both curve points of the coset, the Jacobi-quartic s solves
+/// x s^2 + 2 s - x = 0 (a = -1); for each such s the square branch needs n1(r) = s^2, the non-square
+/// branch r*n1(r) = s^2, both quadratics in r = zeta r0^2. Candidates are confirmed with the model map.
+pub fn elligator_preimages(ctx: &Ctx, target: &crate::model::Pt, rng: &mut impl RngCore) -> Vec<B> {
+    let c = &ctx.c;
+    let f = &c.f;
+    let (a, d) = (&c.a, &c.d);
+    let dma = f.sub(d, a);
+    let am2d = f.sub(a, &f.mul(&b(2), d));
+    let p1: Poly = vec![f.neg(&dma), d.clone()];
+    let p2: Poly = vec![f.neg(d), dma.clone()];
+    let den = pmul(f, &p1, &p2);
+    let n_sq: Poly = vec![am2d.clone(), am2d.clone()]; // (r+1)(a-2d)
+    let n_ns: Poly = pmul(f, &vec![b(0), b(1)], &n_sq); // r(r+1)(a-2d)
+    let zi = f.inv(&c.zeta).unwrap();
+    let mut out: Vec<B> = Vec::new();
+    for pt in [target.clone(), c.torque(target)] {
+        if pt.x == b(0) {
+            continue;
+        }
+        // x s^2 + 2 s - x = 0
+        let quad: Poly = vec![f.neg(&pt.x), b(2), pt.x.clone()];
+        for s in roots(f, &quad, rng) {
+            let s2 = f.sq(&s);
+            for num in [&n_sq, &n_ns] {
+                let poly = psub(f, &crate::poly::pscale(f, &den, &s2), num);
+                for r in roots(f, &poly, rng) {
+                    if let Some(r0) = f.sqrt(&f.mul(&r, &zi)) {
+                        if let Some((img, _)) = c.elligator_spec(&r0) {
+                            if c.eq(&img, target) {
+                                let r0n = f.neg(&r0);
+                                if !out.contains(&r0) {
+                                    out.push(r0);
+                                }
+                                if !out.contains(&r0n) {
+                                    out.push(r0n);
+                                }
+                            }
+                        }
+                    }
+                }
+            }
+        }
+    }
+    out.sort();
+    out
+}
